@@ -68,6 +68,10 @@ func genC10(g *simrt.Tape, tier string) any {
 			}
 			genCtx(g, &call)
 			call.Via = genVia(g)
+			if g.Draw(10) == 0 {
+				// another client of the same process (a clone) makes a call of its own in between
+				call = CallSc{Kind: "clone"}
+			}
 			cs.Calls = append(cs.Calls, call)
 		}
 		sc.Callers = append(sc.Callers, cs)
@@ -81,6 +85,15 @@ func genC10(g *simrt.Tape, tier string) any {
 	}
 	sc.Chunk = []int{simnet.ChunkMax, simnet.ChunkRandom, simnet.ChunkRandom}[g.Draw(3)]
 	sc.FinalClose = true
+	// writes that take a while (a stalled transport, bounded pipes): a request is "being written" for some time
+	if g.Draw(3) == 0 {
+		for i := 0; i < 3; i++ {
+			sc.Conns = append(sc.Conns, ConnSc{Rates: map[string]int{"stall": 150 + g.Draw(400)}})
+		}
+	}
+	if g.Draw(4) == 0 {
+		sc.Capacity = []int{64, 256}[g.Draw(2)]
+	}
 	return sc
 }
 
